@@ -11,7 +11,7 @@
    an equation through [rn_dbuf_abs] (= DisplayBuffer::as_str). *)
 From Coq Require Import NArith Arith List Bool Lia.
 From AV Require Import Generated.Style Generated.Render Spec.Vt Spec.Strip Spec.Sgr Spec.Algebra Spec.Render Spec.Io Model.Base Model.Imp Model.Style Model.Render
-  Generated.StyleFn Generated.RenderFn Proofs.ParamsSim Proofs.StreamIo Proofs.StyleGen Proofs.Render.
+  Generated.StyleFn Generated.RenderFn Proofs.ParamsSim Proofs.StreamIo Proofs.Style Proofs.StyleGen Proofs.Render.
 Import ListNotations.
 Local Open Scope N_scope.
 
@@ -563,10 +563,37 @@ Proof.
   destruct (st_fg s) as [c1|], (st_bg s) as [c2|], (st_ul s) as [c3|]; cbn [option_map]; repeat fmt_slot; reflexivity.
 Qed.
 
+(* "nothing to reset": `self != Self::new()` / `self == Self::new()` (derived PartialEq: [style_eqb]), `self.is_plain()`
+   (the translation of Generated/StyleFn.v) or its body written out over the field views all test the same thing;
+   [plain_test] brings whichever the source uses to [style_eqb s st_new] *)
+Lemma st_is_plain_eqb s : st_is_plain s = style_eqb s st_new.
+Proof.
+  destruct (style_eqb s st_new) eqn:E.
+  - apply style_eqb_eq in E. apply st_is_plain_iff. exact E.
+  - destruct (st_is_plain s) eqn:P; [|reflexivity]. apply st_is_plain_iff in P. subst s.
+    rewrite (proj2 (style_eqb_eq st_new st_new) eq_refl) in E. discriminate.
+Qed.
+
+Lemma rn_plain_views s :
+  opt_is_none (rn_st_fg s) && opt_is_none (rn_st_bg s) && opt_is_none (rn_st_ul s) && g_eff_is_plain (st_eff s) = style_eqb s st_new.
+Proof. rewrite <- st_is_plain_eqb. destruct s as [[?|] [?|] [?|] x]; reflexivity. Qed.
+
+Lemma style_eqb_new_sym s : style_eqb st_new s = style_eqb s st_new.
+Proof.
+  destruct (style_eqb s st_new) eqn:E.
+  - apply style_eqb_eq in E. subst s. apply style_eqb_eq. reflexivity.
+  - destruct (style_eqb st_new s) eqn:P; [|reflexivity]. apply style_eqb_eq in P. subst s.
+    rewrite (proj2 (style_eqb_eq st_new st_new) eq_refl) in E. discriminate.
+Qed.
+
+Ltac plain_test :=
+  cbv zeta;
+  rewrite ?g_st_new_eq, ?g_st_is_plain_eq, ?st_is_plain_eqb, ?rn_plain_views, ?style_eqb_new_sym.
+
 (* Style::render_reset: the NullFormatter's text *)
 Lemma gr_style_render_reset_eq s : gr_style_render_reset s = rn_render_reset s.
 Proof.
-  unfold gr_style_render_reset, rn_render_reset, rn_nf_new. rewrite g_st_new_eq.
+  unfold gr_style_render_reset, rn_render_reset, rn_nf_new. plain_test.
   destruct (style_eqb s st_new); reflexivity.     (* `!=` or `==` with the branches swapped *)
 Qed.
 
@@ -869,7 +896,7 @@ Qed.
 Theorem translated_write_reset_to_is_model s w :
   gr_style_write_reset_to s w = Some (io_bufs w (rn_write_reset_to s)).
 Proof.
-  unfold gr_style_write_reset_to, rn_write_reset_to. rewrite g_st_new_eq.
+  unfold gr_style_write_reset_to, rn_write_reset_to. plain_test.
   destruct (style_eqb s st_new); cbn [negb]; try reflexivity;
     rewrite wr_bufs_cons; destruct (w_write_all w rn_reset_str); reflexivity.
 Qed.
